@@ -575,6 +575,12 @@ func (f *Frame) staticCall(in ssa.Instruction, fn *ssa.Function, binds []SV, arg
 			c.oblige("atcall", cl.Tags, g, e.boolClause(cl), f.where(in), "at call of "+fn.Name()+": "+cl.Text)
 		}
 	}
+	if fn.Synthetic == "package initializer" && fn.Pkg != f.fn.Pkg {
+		// the initializer of an imported package: imports are acyclic, so it cannot read or write the state of the
+		// package being initialised (nor anything only reachable from it); its effect on its own package is not modelled
+		x.usedStub["model: initializers of imported packages do not touch the importing package's variables"] = true
+		return SV{}
+	}
 	if m, ok := intrinsics[key]; ok {
 		if r, handled := m(f, in, args, cc, st, g); handled {
 			return r
@@ -1015,6 +1021,9 @@ func (f *Frame) applyContract0(in ssa.Instruction, ct *Contract, fn *ssa.Functio
 	e.ghostSets(ct, st, g)
 	e = mk(st, results)
 	for _, en := range ct.Ensures {
+		if hasTag(en.Tags, "internal") {
+			continue // speaks about the callee's locals: proved there, not part of what callers learn
+		}
 		// ghost parameters were arbitrary when the callee was verified: the clause holds for all of them
 		var bound []string
 		ee := e
